@@ -26,6 +26,12 @@ def run(payload):
       assert xj.dtype == jnp.float32
       assert _bits(xj) == [int(b) for b in t["bits"]], "input bits changed by device transfer"
       dt = dts[t["dtype"]]
+      if t["dtype"] in ("int8", "int16") and t.get("spelling"):
+        # the same storage dtype spelled as callers do (an existing array's .dtype, numpy's scalar type):
+        # equal to jnp.int8 / jnp.int16 but not the same object (added after a seeded change that picked
+        # the bucket count by identity was missed)
+        dt = [None, np.dtype(t["dtype"]), getattr(np, t["dtype"]),
+              jnp.zeros((1,), dt).dtype][t["spelling"]]
       qv = QuantizedValue.from_float_value(xj, dt, extract_diagonal=bool(t.get("diag")))
       fl = qv.to_float()
       r["shape_field"] = [int(s) for s in qv.shape]
